@@ -158,9 +158,12 @@ def run(model: RepoModel, rep, tier: str):
             probs.append("the bytecode scan does not precede the evaluation")
         else:
             body = cfg.loop_body_nodes[scans[0]]
-            rejects = any(cfg.kind[n] == "test" and isinstance(cfg.stmt[n], ast.If) and "CALL" in norm(cfg.stmt[n].test)
-                          and any(isinstance(x, ast.Call) and (call_name(x) or "").endswith("error_and_quit") or isinstance(x, ast.Raise) for b in cfg.stmt[n].body for x in ast.walk(b))
-                          for n in body)
+            rejects = False
+            for n in body:
+                st_ = cfg.stmt.get(n)
+                stops = isinstance(st_, ast.Raise) or any((call_name(x) or "").endswith("error_and_quit") for x in cfg.calls_at(n))
+                if stops and any(truth and "CALL" in norm(atom) for atom, truth in cfg.conditions_at(n)):
+                    rejects = True
             if not rejects:
                 probs.append("the scan no longer rejects CALL opcodes")
     (rep.violation if probs else rep.holds)("C08.R3", key, "util/util.py", se.node.lineno,
@@ -335,26 +338,39 @@ def _r8_value_plumbing(model: RepoModel, rep):
         raise AnalysisError("adjust_index_of_status_space vanished")
     base = g.params[1]
     n_g = 0
-    for n in walk_no_nested(g.node):
-        if isinstance(n, ast.If) and any(isinstance(x, ast.BinOp) and isinstance(x.op, ast.Add) and any(isinstance(y, ast.Name) and y.id == base for y in (x.left, x.right))
-                                        for b in n.body for x in ast.walk(b)) and isinstance(n.test, ast.Compare) and len(n.test.ops) == 1 \
-                and isinstance(n.test.left, ast.Name):
+    gcfg = cfg_of(g.node)
+    for node in gcfg.g.nodes:
+        st = gcfg.stmt.get(node)
+        if gcfg.kind[node] != "stmt" or not isinstance(st, ast.Assign) or not isinstance(st.value, ast.BinOp) or not isinstance(st.value.op, ast.Add) \
+                or not any(isinstance(y, ast.Name) and y.id == base for y in (st.value.left, st.value.right)):
+            continue
+        val = next((y.id for y in (st.value.left, st.value.right) if isinstance(y, ast.Name) and y.id != base), None)
+        conds = [(a, tr) for a, tr in gcfg.conditions_at(node) if isinstance(a, ast.Compare) and len(a.ops) == 1
+                 and any(isinstance(x, ast.Name) and x.id == val for x in (a.left, a.comparators[0]))]
+        if not conds:
+            continue
+        for a, tr in conds:
             n_g += 1
-            t = n.test
-            c0 = t.comparators[0]
-            cval = -c0.operand.value if isinstance(c0, ast.UnaryOp) and isinstance(c0.op, ast.USub) and isinstance(c0.operand, ast.Constant) else (
-                c0.value if isinstance(c0, ast.Constant) else None)
-            only_sentinel = (isinstance(t.ops[0], ast.NotEq) and cval == -1) or (isinstance(t.ops[0], ast.Gt) and cval == -1) or (isinstance(t.ops[0], ast.GtE) and cval == 0)
+            other = a.comparators[0] if isinstance(a.left, ast.Name) and a.left.id == val else a.left
+            flipped = not (isinstance(a.left, ast.Name) and a.left.id == val)
+            cval = -other.operand.value if isinstance(other, ast.UnaryOp) and isinstance(other.op, ast.USub) and isinstance(other.operand, ast.Constant) else (
+                other.value if isinstance(other, ast.Constant) else None)
+            op = type(a.ops[0])
+            if flipped:
+                op = {ast.Lt: ast.Gt, ast.Gt: ast.Lt, ast.LtE: ast.GtE, ast.GtE: ast.LtE}.get(op, op)
+            if not tr:
+                op = {ast.Eq: ast.NotEq, ast.NotEq: ast.Eq, ast.Lt: ast.GtE, ast.GtE: ast.Lt, ast.Gt: ast.LtE, ast.LtE: ast.Gt}.get(op, op)
+            only_sentinel = (op is ast.NotEq and cval == -1) or (op is ast.Gt and cval == -1) or (op is ast.GtE and cval == 0)
             key = f"core/global_semantics.py::adjust_index_of_status_space::guard #{n_g} skips only the sentinel"
             if only_sentinel:
-                rep.holds("C08.R8", key, gs.rel, n.lineno, f"`{norm(t)}`")
+                rep.holds("C08.R8", key, gs.rel, st.lineno, f"relocated when `{norm(a)}` is {tr}")
             elif cval is not None:
-                rep.violation("C08.R8", key, gs.rel, n.lineno,
-                              f"indexes are relocated only when `{norm(t)}`: index 0 (the first entry of a callee's space -- the operand of the "
-                              f"first statement of a function without parameters and locals) stays unrelocated and then names entry 0 of the "
+                rep.violation("C08.R8", key, gs.rel, st.lineno,
+                              f"indexes are relocated only when `{norm(a)}` is {tr}: index 0 (the first entry of a callee's space -- the operand of "
+                              f"the first statement of a function without parameters and locals) stays unrelocated and then names entry 0 of the "
                               f"global space, an unrelated state")
             else:
-                rep.unknown("C08.R8", key, gs.rel, n.lineno, f"guard `{norm(t)}` not recognised")
+                rep.unknown("C08.R8", key, gs.rel, st.lineno, f"guard `{norm(a)}` not recognised")
     if n_g < 1:
         raise AnalysisError("adjust_index_of_status_space: no guarded relocation found")
     # (c) newest versions
